@@ -21,11 +21,11 @@ LANES = ["cfg", "doc", "prog", "fault", "io", "sched"]
 
 # property -> settings
 PROPS = {
-    "C01": dict(flavours=["asan"], quick=40000, thorough=1500000, chunk=1000, level="exploration"),
-    "C02": dict(flavours=["asan"], quick=60000, thorough=2500000, chunk=1500, level="exploration"),
+    "C01": dict(flavours=["asan"], quick=400000, thorough=12000000, chunk=5000, level="exploration"),
+    "C02": dict(flavours=["asan"], quick=400000, thorough=12000000, chunk=5000, level="exploration"),
     "C03": dict(flavours=["asan"], quick=40000, thorough=1500000, chunk=1000, level="exploration"),
     "C05": dict(flavours=["asan"], quick=40000, thorough=1500000, chunk=1000, level="exploration"),
-    "C10": dict(flavours=["asan"], quick=30000, thorough=1000000, chunk=800, level="exploration"),
+    "C10": dict(flavours=["asan"], quick=300000, thorough=8000000, chunk=4000, level="exploration"),
     "C13": dict(flavours=["asan"], quick=60000, thorough=2500000, chunk=1500, level="exploration"),
     "C18": dict(flavours=["asan"], quick=12000, thorough=400000, chunk=300, level="exploration"),
     "C19": dict(flavours=["asan", "tsan"], quick=1500, thorough=60000, chunk=50, level="exploration"),
